@@ -19,6 +19,8 @@ type GenCfg struct {
 	Ladder    int  // 1/Ladder chance that a string / byte array / small-element array takes a threshold size
 	LadderMax int  // largest ladder size allowed (0 = all)
 	LadderBig int  // one ladder hit in LadderBig is one of the sizes around the 64 KiB multiples
+	Huge      int  // > 0: 1/Huge chance that ONE string of the value runs to megabytes (1 MiB+1, 3 MiB, 4 MiB+5)
+	Bulky     int  // > 0: the first non-empty array or map of the value gets this many elements, NOT kept small (with LongProb/LongLen: megabytes in one container)
 	MaxNodes  int  // > 0: after this many records the rest of the value is as shallow as its types allow (deep but narrow values)
 	Giant     int  // > 0: one array of fixed-width scalars in Giant has about 2^17 elements
 }
@@ -60,6 +62,8 @@ type Gen struct {
 	// is enough; a dozen of them only costs time)
 	giants int
 	nodes  int // records generated so far (MaxNodes)
+	bulky  int // bulky containers drawn so far
+	huge   int // megabyte strings drawn so far
 }
 
 // manyLadder holds element counts around the preallocation hint of the stream decoders
@@ -192,6 +196,10 @@ func (g *Gen) Type(t schema.Type, budget int) Value {
 		isMany := false
 		if l, ok := g.many(); ok && n > 0 {
 			n, isMany = l, true // many elements of any type: strings, records, containers
+		}
+		if g.Cfg.Bulky > 0 && g.bulky == 0 && n > 0 && g.small == 0 && t.Array.Prim == "" {
+			g.bulky++
+			n, isMany = g.Cfg.Bulky, false
 		}
 		if g.minOfType(*t.Array) > budget {
 			n = 0
@@ -431,6 +439,18 @@ func (g *Gen) prim(p string) Value {
 
 func (g *Gen) str() []byte {
 	r := g.R
+	if g.Cfg.Huge > 0 && g.huge == 0 && g.small == 0 && r.Chance(1, g.Cfg.Huge) {
+		g.huge++
+		b := make([]byte, []int{1<<20 + 1, 3 << 20, 1<<22 + 5}[r.Intn(3)])
+		x := r.Uint64() | 1
+		for i := range b {
+			x ^= x << 13
+			x ^= x >> 7
+			x ^= x << 17
+			b[i] = 'a' + byte(x%26)
+		}
+		return b
+	}
 	if l, ok := g.ladder(); ok {
 		b := r.Bytes(l)
 		for i := range b {
